@@ -60,6 +60,10 @@ def parse(text):
     try:
         return parser.BQLParser().parse(text, semantics=BQLSemantics())
     except tatsu.exceptions.ParseError as exc:
-        line = exc.tokenizer.line_info(exc.pos).line
+        try:
+            line = exc.tokenizer.line_info(exc.pos).line
+        except IndexError:
+            # There is no line to point to in an empty text.
+            raise ParseError(None) from exc
         parseinfo = tatsu.infos.ParseInfo(exc.tokenizer, exc.item, exc.pos, exc.pos + 1, line, [])
         raise ParseError(parseinfo) from exc
